@@ -22,14 +22,22 @@ from typing import Any
 from .. import core
 
 MODULES = ["ESV.Props.C04"]
-THEOREMS = [
-    "ESV.C04.read_repr_single", "ESV.C04.tok_single_exact", "ESV.C04.read_repr_fallback", "ESV.C04.tok_fallback_exact",
-    "ESV.C04.read_repr_multi", "ESV.C04.tok_multi_exact", "ESV.C04.read_repr_string", "ESV.C04.const_string_roundtrip",
-    "ESV.C04.langstring_roundtrip",
-    "ESV.C04.int_roundtrip", "ESV.C04.int_bases", "ESV.C04.int_zeros",
-    "ESV.C04.fixed_roundtrip", "ESV.C04.fixed_normal_form",
-    "ESV.C04.posarg_roundtrip", "ESV.C04.posmark_roundtrip", "ESV.C04.dmode_roundtrip",
-]
+THEOREMS = ["ESV.C04." + t for t in [
+    # print -> lex -> read, all values inside the guards, all indents, both quote preferences
+    "read_repr_single", "tok_single_exact", "read_repr_fallback", "tok_fallback_exact", "read_repr_multi", "tok_multi_exact",
+    "read_repr_string", "const_string_roundtrip", "langstring_roundtrip",
+    # the excluded classes (concrete witnesses) and the exactness examples
+    "trailing_backslash_counterexample", "backslash_before_delimiting_quote_counterexample",
+    "backslash_before_other_quote_counterexample", "backslash_n_counterexample", "cr_ff_counterexample", "backslash_elsewhere_ok",
+    "both_triple_quotes_ok", "both_triple_quotes_counterexample", "all_lines_indented_counterexample",
+    "other_linebreak_counterexample", "trailing_blank_line_indent0_counterexample",
+    # spec side
+    "spec_example_single", "spec_example_multi_a", "spec_example_multi_b", "dedent_rules", "multi_keeps_backslash_n", "spec_departures",
+    # numbers, position marks, dungeon mode
+    "int_roundtrip", "int_bases", "int_zeros", "fixed_roundtrip", "fixed_normal_form", "fixed_empty_fraction_counterexample",
+    "posarg_roundtrip", "posarg_exact_iff", "posmark_roundtrip", "posmark_name_counterexample", "posarg_leading_zero_fraction",
+    "dmode_roundtrip", "dmode_values",
+]]
 
 SEP_OTHER = "\r\x0b\x0c\x1c\x1d\x1e\x85\u2028\u2029"
 DM = ["DM_CLOSE", "DM_OPEN", "DM_REQUEST", "DM_OPEN_REQUEST"]
